@@ -96,7 +96,8 @@ Signature(q) ==
    ids |-> MsgIds,
    constants |-> [K |-> q.k, K2 |-> K2(q), BIG |-> q.k * 1000 + 7, CONSTANT_WITH_A_NAME_THAT_GOES_PAST_COLUMN_FORTY_EIGHT |-> 77,
                  WIDE |-> 78],      \* W0 + W1 + ... + W11 with Wi = i + 1: an expression over twelve constants
-   ratios |-> [HALF |-> <<q.k, 2>>, INV |-> <<1, q.k>>, SPAN |-> <<q.k * 2 + 1, 2>>],     \* constant expressions with a division: numerator / denominator
+   ratios |-> [HALF |-> <<q.k, 2>>, INV |-> <<1, q.k>>, SPAN |-> <<q.k * 2 + 1, 2>>,
+              THIRD |-> <<q.k, 3>>, SEVENTH |-> <<q.k * 2 + 1, 7>>],        \* values that need all 17 significant digits     \* constant expressions with a division: numerator / denominator
    mids |-> [MYMOD |-> 12, AMID_SHIP |-> 13], hids |-> [MYHOST |-> 10, CHID_X |-> 11],
    reserved |-> {1003, 1005, 1006, 1007}]
 
